@@ -1,8 +1,125 @@
-import Spk.Machine -- (spike: was built as module Spk.Machine of a scratch lake project)
-namespace BM
+import Spk.Machine2 -- (spike: built as module Spk.Machine2 = spikes/Machine.lean of a scratch lake project)
+namespace BM2
 
 theorem wcur_cons (m : M) (w ws) (h : m.write = w :: ws) : wcur m = w.cursor := by simp [wcur, h]
 theorem rcur_cons (m : M) (r rs) (h : m.read = r :: rs) : rcur m = r.cursor := by simp [rcur, h]
+
+
+def SameCaps (m m' : M) : Prop := m'.cap = m.cap ∧ m'.fcap = m.fcap
+theorem SameCaps.rfl' (m : M) : SameCaps m m := ⟨rfl, rfl⟩
+theorem SameCaps.trans {a b c : M} (h1 : SameCaps a b) (h2 : SameCaps b c) : SameCaps a c :=
+  ⟨h2.1.trans h1.1, h2.2.trans h1.2⟩
+
+theorem writeBit_caps {b m m'} (h : writeBit b m = .ok m') : SameCaps m m' := by
+  unfold writeBit at h; split at h
+  · cases h
+  · split at h
+    · cases h; exact ⟨rfl, rfl⟩
+    · cases h
+theorem skip_caps {n m m'} (h : skip n m = .ok m') : SameCaps m m' := by
+  unfold skip at h; split at h
+  · cases h; exact ⟨rfl, rfl⟩
+  · split at h
+    · cases h
+    · cases h; exact ⟨rfl, rfl⟩
+theorem fwd_caps {n m m'} (h : fwd n m = .ok m') : SameCaps m m' := by
+  unfold fwd at h; split at h
+  · cases h; exact ⟨rfl, rfl⟩
+  · split at h
+    · cases h
+    · cases h; exact ⟨rfl, rfl⟩
+theorem back_caps {n m m'} (h : back n m = .ok m') : SameCaps m m' := by
+  unfold back at h; split at h
+  · cases h; exact ⟨rfl, rfl⟩
+  · split at h
+    · cases h
+    · cases h; exact ⟨rfl, rfl⟩
+theorem copy_caps {n m m'} (h : copy n m = .ok m') : SameCaps m m' := by
+  unfold copy at h; split at h
+  · cases h; exact ⟨rfl, rfl⟩
+  · split at h
+    · cases h; exact ⟨rfl, rfl⟩
+    · cases h
+theorem newWrite_caps {n m m'} (h : newWrite n m = .ok m') : SameCaps m m' := by
+  unfold newWrite at h; split at h
+  · cases h; exact ⟨rfl, rfl⟩
+  · cases h
+theorem moveWriteToRead_caps {m m'} (h : moveWriteToRead m = .ok m') : SameCaps m m' := by
+  unfold moveWriteToRead at h; split at h
+  · cases h
+  · cases h; exact ⟨rfl, rfl⟩
+theorem dropRead_caps {m m'} (h : dropRead m = .ok m') : SameCaps m m' := by
+  unfold dropRead at h; split at h
+  · cases h
+  · split at h
+    · cases h; exact ⟨rfl, rfl⟩
+    · cases h
+
+theorem bind_ok_inv {ε α β} {x : Except ε α} {f : α → Except ε β} {b : β}
+    (h : (x >>= f) = .ok b) : ∃ a, x = .ok a ∧ f a = .ok b := by
+  cases x with
+  | error e => cases h
+  | ok a => exact ⟨a, rfl, h⟩
+
+theorem run_caps : ∀ {a b : Ty} (t : Term a b) (m m' : M), run t m = .ok m' → SameCaps m m' := by
+  intro a b t
+  induction t with
+  | iden => intro m m' h; exact copy_caps h
+  | unit => intro m m' h; cases h; exact SameCaps.rfl' m
+  | injl t ih =>
+    intro m m' h
+    simp only [run] at h
+    obtain ⟨m1, h1, h⟩ := bind_ok_inv h
+    obtain ⟨m2, h2, h⟩ := bind_ok_inv h
+    exact (writeBit_caps h1).trans ((skip_caps h2).trans (ih _ _ h))
+  | injr t ih =>
+    intro m m' h
+    simp only [run] at h
+    obtain ⟨m1, h1, h⟩ := bind_ok_inv h
+    obtain ⟨m2, h2, h⟩ := bind_ok_inv h
+    exact (writeBit_caps h1).trans ((skip_caps h2).trans (ih _ _ h))
+  | take t ih => intro m m' h; exact ih _ _ h
+  | drop t ih =>
+    intro m m' h
+    simp only [run] at h
+    obtain ⟨m1, h1, h⟩ := bind_ok_inv h
+    obtain ⟨m2, h2, h⟩ := bind_ok_inv h
+    exact (fwd_caps h1).trans ((ih _ _ h2).trans (back_caps h))
+  | comp s t ihs iht =>
+    intro m m' h
+    simp only [run] at h
+    obtain ⟨m1, h1, h⟩ := bind_ok_inv h
+    obtain ⟨m2, h2, h⟩ := bind_ok_inv h
+    obtain ⟨m3, h3, h⟩ := bind_ok_inv h
+    obtain ⟨m4, h4, h⟩ := bind_ok_inv h
+    exact (newWrite_caps h1).trans ((ihs _ _ h2).trans ((moveWriteToRead_caps h3).trans
+      ((iht _ _ h4).trans (dropRead_caps h))))
+  | case s t ihs iht =>
+    intro m m' h
+    simp only [run] at h
+    obtain ⟨bit, _, h⟩ := bind_ok_inv h
+    cases bit with
+    | true =>
+      simp only [if_true] at h
+      obtain ⟨m1, h1, h⟩ := bind_ok_inv h
+      obtain ⟨m2, h2, h⟩ := bind_ok_inv h
+      exact (fwd_caps h1).trans ((iht _ _ h2).trans (back_caps h))
+    | false =>
+      simp only [Bool.false_eq_true, if_false] at h
+      obtain ⟨m1, h1, h⟩ := bind_ok_inv h
+      obtain ⟨m2, h2, h⟩ := bind_ok_inv h
+      exact (fwd_caps h1).trans ((ihs _ _ h2).trans (back_caps h))
+  | pair s t ihs iht =>
+    intro m m' h
+    simp only [run] at h
+    obtain ⟨m1, h1, h⟩ := bind_ok_inv h
+    exact (ihs _ _ h1).trans (iht _ _ h)
+  | fail => intro m m' h; cases h
+
+/-- the machine was sized from the static bounds of `t` (C07) -/
+structure Cap {a b : Ty} (m : M) (t : Term a b) : Prop where
+  cells : m.next + extraCells t ≤ m.cap
+  frames : m.write.length + m.read.length + extraFrames t ≤ m.fcap
 
 theorem spec_iden {a : Ty} (m : M) (v : Val) (pre : Pre m a a v) : Spec (Term.iden (a := a)) m v := by
   unfold Spec
@@ -71,10 +188,10 @@ theorem slice_eq_of {f g : Nat → Bool} {c1 c2 n : Nat}
       rw [show c2 + (i+1) = c2 + 1 + i by omega, show c1 + (i+1) = c1 + 1 + i by omega] at this
       exact this
 
-theorem writeBit_cons (b : Bool) (m : M) (w ws) (h : m.write = w :: ws) :
+theorem writeBit_cons (b : Bool) (m : M) (w ws) (h : m.write = w :: ws) (hc : w.cursor < m.cap) :
     writeBit b m = .ok { m with cells := upd m.cells w.cursor b,
                                 write := { w with cursor := w.cursor + 1 } :: ws } := by
-  simp [writeBit, h]
+  simp [writeBit, h, hc]
 
 theorem skip_cons (n : Nat) (m : M) (w ws) (h : m.write = w :: ws) :
     skip n m = .ok { m with write := { w with cursor := w.cursor + n } :: ws } := by
@@ -113,8 +230,8 @@ theorem pad_bw_l (b c : Ty) : padL b c + b.bw = max b.bw c.bw := by unfold padL;
 theorem pad_bw_r (b c : Ty) : padR b c + c.bw = max b.bw c.bw := by unfold padR; omega
 
 theorem spec_inj {a b c : Ty} (left : Bool) (t : Term a (if left then b else c))
-    (ih : ∀ m v, Pre m a (if left then b else c) v → Spec t m v)
-    (m : M) (v : Val) (pre : Pre m a (.sum b c) v) :
+    (ih : ∀ m v, Pre m a (if left then b else c) v → Cap m t → Spec t m v)
+    (m : M) (v : Val) (pre : Pre m a (.sum b c) v) (hcap : Cap m t) :
     let pad := if left then padL b c else padR b c
     let k := fun (x : Val) => if left then Val.inl x else Val.inr x
     match eval t v with
@@ -133,7 +250,12 @@ theorem spec_inj {a b c : Ty} (left : Bool) (t : Term a (if left then b else c))
   have hrun : ∀ (f : M → Except Err M),
       (do let m ← writeBit (!left) m; let m ← skip pad m; f m) = f m2 := by
     intro f
-    rw [writeBit_cons _ m w ws hwr]
+    have hcur : w.cursor < m.cap := by
+      have h1 := pre.wlt; have h2 := hcap.cells
+      rw [hwc] at h1
+      have : (Ty.sum b c).bw = 1 + max b.bw c.bw := rfl
+      omega
+    rw [writeBit_cons _ m w ws hwr hcur]
     simp only [bind, Except.bind]
     rw [skip_cons pad _ { w with cursor := w.cursor + 1 } ws rfl]
   have hsum : (Ty.sum b c).bw = 1 + (pad + tb.bw) := by simp [Ty.bw, hpad]
@@ -156,7 +278,12 @@ theorem spec_inj {a b c : Ty} (left : Bool) (t : Term a (if left then b else c))
       rw [hwc] at this
       show rcur m + i ≠ w.cursor + 1 + pad + j
       omega
-  have hih := ih m2 v pre2
+  have cap2 : Cap m2 t := by
+    refine ⟨hcap.cells, ?_⟩
+    have := hcap.frames
+    rw [hwr] at this
+    exact this
+  have hih := ih m2 v pre2 cap2
   unfold Spec at hih
   cases he : eval t v with
   | none =>
@@ -212,12 +339,22 @@ theorem spec_inj {a b c : Ty} (left : Bool) (t : Term a (if left then b else c))
     ((Except.error e : Except ε α) >>= f) = Except.error e := rfl
 
 theorem spec_comp {a b c : Ty} (s : Term a b) (t : Term b c)
-    (ihs : ∀ m v, Pre m a b v → Spec s m v) (iht : ∀ m v, Pre m b c v → Spec t m v)
-    (m : M) (v : Val) (pre : Pre m a c v) : Spec (Term.comp s t) m v := by
+    (ihs : ∀ m v, Pre m a b v → Cap m s → Spec s m v) (iht : ∀ m v, Pre m b c v → Cap m t → Spec t m v)
+    (m : M) (v : Val) (pre : Pre m a c v) (hcap : Cap m (Term.comp s t)) : Spec (Term.comp s t) m v := by
   unfold Spec
-  simp only [eval, run, newWrite, ok_bind]
   let nf : Frame := ⟨m.next, m.next, b.bw⟩
   let m1 : M := { m with write := nf :: m.write, next := m.next + b.bw }
+  have hec : extraCells (Term.comp s t) = b.bw + max (extraCells s) (extraCells t) := rfl
+  have hef : extraFrames (Term.comp s t) = 1 + max (extraFrames s) (extraFrames t) := rfl
+  have hcc := hcap.cells
+  have hcf := hcap.frames
+  rw [hec] at hcc
+  rw [hef] at hcf
+  have hnw : newWrite b.bw m = .ok m1 := by
+    unfold newWrite
+    rw [if_pos ⟨by omega, by omega⟩]
+  simp only [eval, run]
+  rw [hnw, ok_bind]
   show (match (eval s v).bind (eval t) with
     | some out => ∃ m', (run s m1 >>= fun m => moveWriteToRead m >>= fun m => run t m >>= dropRead) = .ok m' ∧ Post m m' c out
     | none => (run s m1 >>= fun m => moveWriteToRead m >>= fun m => run t m >>= dropRead) = .error .fail)
@@ -229,7 +366,12 @@ theorem spec_comp {a b c : Ty} (s : Term a b) (t : Term b c)
       have := pre.rlt
       show rcur m + i ≠ m.next + j
       omega
-  have h1 := ihs m1 v pre1
+  have cap1 : Cap m1 s := by
+    refine ⟨?_, ?_⟩
+    · show m.next + b.bw + extraCells s ≤ m.cap; omega
+    · show (nf :: m.write).length + m.read.length + extraFrames s ≤ m.fcap
+      simp only [List.length_cons]; omega
+  have h1 := ihs m1 v pre1 cap1
   unfold Spec at h1
   cases hes : eval s v with
   | none =>
@@ -259,7 +401,16 @@ theorem spec_comp {a b c : Ty} (s : Term a b) (t : Term b c)
         rw [hwc3, hrc3]
         have := pre.wlt
         omega
-    have h3 := iht m3 x pre3
+    have hsc2 := run_caps s m1 m2 hr2
+    have cap3 : Cap m3 t := by
+      refine ⟨?_, ?_⟩
+      · show m2.next + extraCells t ≤ m2.cap
+        rw [post2.next, hsc2.1]; show m.next + b.bw + extraCells t ≤ m.cap; omega
+      · show m.write.length + (rf :: m2.read).length + extraFrames t ≤ m2.fcap
+        rw [post2.read, hsc2.2]
+        show m.write.length + (rf :: m.read).length + extraFrames t ≤ m.fcap
+        simp only [List.length_cons]; omega
+    have h3 := iht m3 x pre3 cap3
     unfold Spec at h3
     simp only [Option.bind]
     rw [hr2, ok_bind, hmv, ok_bind]
@@ -300,8 +451,15 @@ theorem wcur_adv (m : M) (n : Nat) (h : n ≠ 0 → m.write ≠ []) :
   | cons w ws => simp [advW, wcur, hw]
 
 theorem spec_pair {a b c : Ty} (s : Term a b) (t : Term a c)
-    (ihs : ∀ m v, Pre m a b v → Spec s m v) (iht : ∀ m v, Pre m a c v → Spec t m v)
-    (m : M) (v : Val) (pre : Pre m a (.prod b c) v) : Spec (Term.pair s t) m v := by
+    (ihs : ∀ m v, Pre m a b v → Cap m s → Spec s m v) (iht : ∀ m v, Pre m a c v → Cap m t → Spec t m v)
+    (m : M) (v : Val) (pre : Pre m a (.prod b c) v) (hcap : Cap m (Term.pair s t)) :
+    Spec (Term.pair s t) m v := by
+  have hec : extraCells (Term.pair s t) = max (extraCells s) (extraCells t) := rfl
+  have hef : extraFrames (Term.pair s t) = max (extraFrames s) (extraFrames t) := rfl
+  have hcc := hcap.cells
+  have hcf := hcap.frames
+  rw [hec] at hcc
+  rw [hef] at hcf
   unfold Spec
   simp only [eval, run]
   have hbc : (Ty.prod b c).bw = b.bw + c.bw := rfl
@@ -309,7 +467,7 @@ theorem spec_pair {a b c : Ty} (s : Term a b) (t : Term a c)
     refine ⟨pre.enc, pre.hr, fun h => pre.hw (by rw [hbc]; omega), pre.rlt, ?_, ?_⟩
     · have := pre.wlt; rw [hbc] at this; omega
     · intro i j hi hj; exact pre.disj i j hi (by rw [hbc]; omega)
-  have h1 := ihs m v pre1
+  have h1 := ihs m v pre1 ⟨by omega, by omega⟩
   unfold Spec at h1
   cases hes : eval s v with
   | none =>
@@ -319,6 +477,12 @@ theorem spec_pair {a b c : Ty} (s : Term a b) (t : Term a c)
   | some x =>
     rw [hes] at h1
     obtain ⟨m1, hr1, post1⟩ := h1
+    have hsc1 := run_caps s m m1 hr1
+    have cap1 : Cap m1 t := by
+      refine ⟨by rw [post1.next, hsc1.1]; omega, ?_⟩
+      rw [post1.read, post1.write, hsc1.2]
+      have : (advW b.bw m.write).length = m.write.length := by cases m.write <;> simp [advW]
+      rw [this]; omega
     have hwc1 : wcur m1 = wcur m + b.bw := by
       unfold wcur; rw [post1.write]
       exact wcur_adv m b.bw (fun h => pre.hw (by rw [hbc]; omega))
@@ -346,7 +510,7 @@ theorem spec_pair {a b c : Ty} (s : Term a b) (t : Term a c)
         rw [hrc1, hwc1]
         have := pre.disj i (b.bw + j) hi (by rw [hbc]; omega)
         omega
-    have h2 := iht m1 v pre2
+    have h2 := iht m1 v pre2 cap1
     unfold Spec at h2
     simp only [Option.bind]
     rw [hr1, ok_bind]
@@ -438,16 +602,21 @@ theorem back_after (n : Nat) (m m' : M) (h : n ≠ 0 → m.read ≠ []) (hrd : m
 
 /-- run a sub-term with the read cursor moved forward by `n`, then move it back -/
 theorem spec_shift {a' c : Ty} (t : Term a' c) (n : Nat) (m : M) (y : Val)
-    (iht : ∀ m v, Pre m a' c v → Spec t m v)
+    (iht : ∀ m v, Pre m a' c v → Cap m t → Spec t m v)
     (hn : n ≠ 0 → m.read ≠ [])
-    (pre' : Pre (mfwd n m) a' c y) :
+    (pre' : Pre (mfwd n m) a' c y) (hcap : Cap m t) :
     match eval t y with
     | some out => ∃ m', (fwd n m >>= fun m => run t m >>= fun m => back n m) = .ok m' ∧
         m'.read = m.read ∧ m'.next = m.next ∧ m'.write = advW c.bw m.write ∧
         Enc c out (slice m'.cells (wcur m) c.bw) ∧
         (∀ i, i < m.next → (∀ j, j < c.bw → i ≠ wcur m + j) → m'.cells i = m.cells i)
     | none => (fwd n m >>= fun m => run t m >>= fun m => back n m) = .error .fail := by
-  have h := iht _ y pre'
+  have cap' : Cap (mfwd n m) t := by
+    refine ⟨hcap.cells, ?_⟩
+    have : (advR n m.read).length = m.read.length := by cases m.read <;> simp [advR]
+    show m.write.length + (advR n m.read).length + extraFrames t ≤ m.fcap
+    rw [this]; exact hcap.frames
+  have h := iht _ y pre' cap'
   unfold Spec at h
   rw [fwd_spec n m hn, ok_bind]
   cases he : eval t y with
@@ -459,8 +628,9 @@ theorem spec_shift {a' c : Ty} (t : Term a' c) (n : Nat) (m : M) (y : Val)
     rw [hr2, ok_bind, back_after n m m2 hn post.read]
     exact ⟨_, rfl, rfl, post.next, post.write, post.enc, post.frame⟩
 
-theorem spec_take {a b c : Ty} (t : Term a c) (iht : ∀ m v, Pre m a c v → Spec t m v)
-    (m : M) (v : Val) (pre : Pre m (.prod a b) c v) : Spec (Term.take (b := b) t) m v := by
+theorem spec_take {a b c : Ty} (t : Term a c) (iht : ∀ m v, Pre m a c v → Cap m t → Spec t m v)
+    (m : M) (v : Val) (pre : Pre m (.prod a b) c v) (hcap : Cap m (Term.take (b := b) t)) :
+    Spec (Term.take (b := b) t) m v := by
   obtain ⟨x, y, bx, by', rfl, hbs, hx, hy⟩ := pre.enc.prod_inv
   have hab : (Ty.prod a b).bw = a.bw + b.bw := rfl
   rw [hab] at hbs
@@ -469,12 +639,13 @@ theorem spec_take {a b c : Ty} (t : Term a c) (iht : ∀ m v, Pre m a c v → Sp
     refine ⟨by rw [← hsp.1]; exact hx, fun h => pre.hr (by rw [hab]; omega), pre.hw, ?_, pre.wlt, ?_⟩
     · have := pre.rlt; rw [hab] at this; omega
     · intro i j hi hj; exact pre.disj i j (by rw [hab]; omega) hj
-  have := iht m x pre'
+  have := iht m x pre' ⟨hcap.cells, hcap.frames⟩
   unfold Spec at this ⊢
   simpa [eval, run] using this
 
-theorem spec_drop {a b c : Ty} (t : Term b c) (iht : ∀ m v, Pre m b c v → Spec t m v)
-    (m : M) (v : Val) (pre : Pre m (.prod a b) c v) : Spec (Term.drop (a := a) t) m v := by
+theorem spec_drop {a b c : Ty} (t : Term b c) (iht : ∀ m v, Pre m b c v → Cap m t → Spec t m v)
+    (m : M) (v : Val) (pre : Pre m (.prod a b) c v) (hcap : Cap m (Term.drop (a := a) t)) :
+    Spec (Term.drop (a := a) t) m v := by
   obtain ⟨x, y, bx, by', rfl, hbs, hx, hy⟩ := pre.enc.prod_inv
   have hab : (Ty.prod a b).bw = a.bw + b.bw := rfl
   rw [hab] at hbs
@@ -495,7 +666,7 @@ theorem spec_drop {a b c : Ty} (t : Term b c) (iht : ∀ m v, Pre m b c v → Sp
       have := pre.disj (a.bw + i) j (by rw [hab]; omega) hj
       show rcur m + a.bw + i ≠ wcur m + j
       omega
-  have := spec_shift t a.bw m y iht hn pre'
+  have := spec_shift t a.bw m y iht hn pre' ⟨hcap.cells, hcap.frames⟩
   unfold Spec
   simp only [eval, run]
   cases he : eval t y with
@@ -507,9 +678,16 @@ theorem spec_drop {a b c : Ty} (t : Term b c) (iht : ∀ m v, Pre m b c v → Sp
 
 
 theorem spec_case {a b c d : Ty} (s : Term (.prod a c) d) (t : Term (.prod b c) d)
-    (ihs : ∀ m v, Pre m (.prod a c) d v → Spec s m v)
-    (iht : ∀ m v, Pre m (.prod b c) d v → Spec t m v)
-    (m : M) (v : Val) (pre : Pre m (.prod (.sum a b) c) d v) : Spec (Term.case s t) m v := by
+    (ihs : ∀ m v, Pre m (.prod a c) d v → Cap m s → Spec s m v)
+    (iht : ∀ m v, Pre m (.prod b c) d v → Cap m t → Spec t m v)
+    (m : M) (v : Val) (pre : Pre m (.prod (.sum a b) c) d v) (hcap : Cap m (Term.case s t)) :
+    Spec (Term.case s t) m v := by
+  have hec : extraCells (Term.case s t) = max (extraCells s) (extraCells t) := rfl
+  have hef : extraFrames (Term.case s t) = max (extraFrames s) (extraFrames t) := rfl
+  have hcc := hcap.cells
+  have hcf := hcap.frames
+  rw [hec] at hcc
+  rw [hef] at hcf
   obtain ⟨u, z, bu, bz, rfl, hbs, hu, hz⟩ := pre.enc.prod_inv
   have hsrc : (Ty.prod (.sum a b) c).bw = (1 + max a.bw b.bw) + c.bw := rfl
   have hne : (Ty.prod (.sum a b) c).bw ≠ 0 := by rw [hsrc]; omega
@@ -560,7 +738,7 @@ theorem spec_case {a b c d : Ty} (s : Term (.prod a c) d) (t : Term (.prod b c) 
         have := pre.disj (1 + padL a b + i) j (by rw [hsrc]; omega) hj
         show rcur m + (1 + padL a b) + i ≠ wcur m + j
         omega
-    have := spec_shift s (1 + padL a b) m (.pair x z) ihs hn pre'
+    have := spec_shift s (1 + padL a b) m (.pair x z) ihs hn pre' ⟨by omega, by omega⟩
     cases he : eval s (.pair x z) with
     | none => rw [he] at this; exact this
     | some out =>
@@ -604,7 +782,7 @@ theorem spec_case {a b c d : Ty} (s : Term (.prod a c) d) (t : Term (.prod b c) 
         have := pre.disj (1 + padR a b + i) j (by rw [hsrc]; omega) hj
         show rcur m + (1 + padR a b) + i ≠ wcur m + j
         omega
-    have := spec_shift t (1 + padR a b) m (.pair y z) iht hn pre'
+    have := spec_shift t (1 + padR a b) m (.pair y z) iht hn pre' ⟨by omega, by omega⟩
     cases he : eval t (.pair y z) with
     | none => rw [he] at this; exact this
     | some out =>
@@ -612,40 +790,40 @@ theorem spec_case {a b c d : Ty} (s : Term (.prod a c) d) (t : Term (.prod b c) 
       obtain ⟨m', hr', h1, h2, h3, h4, h5⟩ := this
       exact ⟨m', hr', ⟨h1, h2, h3, h4, h5⟩⟩
 
-/-- **Bit Machine = denotational semantics** (bit-cell level, core combinators):
-for any machine state satisfying `Pre` (input encoded at the read cursor with arbitrary
-padding, at any offset; write area disjoint from it), the machine succeeds exactly when
-`eval` does, leaves an encoding of the result at the write cursor, restores the read stack
-and the allocation pointer, and touches no live cell outside the output area. -/
-theorem run_spec : ∀ {a b : Ty} (t : Term a b) (m : M) (v : Val), Pre m a b v → Spec t m v := by
+/-- **C05 + C07 (core combinators, bit-cell level).**  If the machine was sized from the static
+bounds of `t` (`Cap`) and holds an encoding of `v` at its read cursor (`Pre`), then `run` never
+crashes (no cell outside the buffer, no frame beyond the stack capacity — the crash branches of
+`newWrite`/`writeBit` are the Rust debug assertions and index panics): it fails exactly when
+`eval` fails and otherwise leaves an encoding of `eval t v`. -/
+theorem run_spec : ∀ {a b : Ty} (t : Term a b) (m : M) (v : Val), Pre m a b v → Cap m t → Spec t m v := by
   intro a b t
   induction t with
-  | iden => exact fun m v pre => spec_iden m v pre
+  | iden => exact fun m v pre _ => spec_iden m v pre
   | unit =>
-    intro m v pre
+    intro m v pre _
     exact ⟨m, rfl, rfl, rfl, by simp [Ty.bw], by simpa [Ty.bw, slice] using Enc.unit, fun _ _ _ => rfl⟩
   | @injl a b c t ih =>
-    intro m v pre
-    have := spec_inj (b := b) (c := c) true t ih m v pre
+    intro m v pre hcap
+    have := spec_inj (b := b) (c := c) true t ih m v pre ⟨hcap.cells, hcap.frames⟩
     unfold Spec
     simp only [eval, run]
     cases he : eval t v with
     | none => simpa [he] using this
     | some out => simpa [he] using this
   | @injr a b c t ih =>
-    intro m v pre
-    have := spec_inj (b := b) (c := c) false t ih m v pre
+    intro m v pre hcap
+    have := spec_inj (b := b) (c := c) false t ih m v pre ⟨hcap.cells, hcap.frames⟩
     unfold Spec
     simp only [eval, run]
     cases he : eval t v with
     | none => simpa [he] using this
     | some out => simpa [he] using this
-  | take t ih => exact fun m v pre => spec_take t ih m v pre
-  | drop t ih => exact fun m v pre => spec_drop t ih m v pre
-  | comp s t ihs iht => exact fun m v pre => spec_comp s t ihs iht m v pre
-  | case s t ihs iht => exact fun m v pre => spec_case s t ihs iht m v pre
-  | pair s t ihs iht => exact fun m v pre => spec_pair s t ihs iht m v pre
-  | fail => intro m v _; rfl
+  | take t ih => exact fun m v pre hc => spec_take t ih m v pre hc
+  | drop t ih => exact fun m v pre hc => spec_drop t ih m v pre hc
+  | comp s t ihs iht => exact fun m v pre hc => spec_comp s t ihs iht m v pre hc
+  | case s t ihs iht => exact fun m v pre hc => spec_case s t ihs iht m v pre hc
+  | pair s t ihs iht => exact fun m v pre hc => spec_pair s t ihs iht m v pre hc
+  | fail => intro m v _ _; rfl
 
 #print axioms run_spec
-end BM
+end BM2
